@@ -25,7 +25,7 @@ import (
 	"verif/harness/xt"
 )
 
-const c14Rule = "rapid over (endpoint: SSO via query, SSO via form with SAMLEncoding=DEFLATE, logout via form, logout via query) x (inflated size S from 1 MiB to 256 MiB in the quick tier, to 1 GiB in the thorough tier) x (padding placed in a comment, in element text, in an attribute value, or after the document element) x (padding byte) x (wrapper otherwise valid / issuer unregistered): a DEFLATE stream of about S/1000 bytes is sent as one request, alone, on one goroutine; runtime.MemStats.TotalAlloc is read before and after ServeHTTP. Oracle: the allocation during the call is at most 160 MiB whatever S is, and a request with S >= 64 MiB is not accepted (no CreateAuthRequest, no Success). Sizes below 64 MiB are executed and reported, not asserted (the statement fixes only the order of magnitude of the cap). Non-trivial: S >= 64 MiB with a compressed size below 1 MiB. Distinct by (endpoint, placement, size, wrapper validity)."
+const c14Rule = "rapid over (endpoint: SSO via query, SSO via form with SAMLEncoding=DEFLATE, logout via form, logout via query) x (inflated size S from 1 MiB to 256 MiB in the quick tier, to 1 GiB in the thorough tier) x (padding placed in a comment, in element text, in an attribute value, or after the document element) x (padding byte) x (wrapper otherwise valid / issuer unregistered): a DEFLATE stream of about S/1000 bytes is sent as one request, alone, on one goroutine; runtime.MemStats.TotalAlloc is read before and after ServeHTTP. x (compression level: fastest, about 800:1, or best, about 1030:1 - the format's maximum): Oracle: the allocation during the call is at most 160 MiB whatever S is, and a request with S >= 32 MiB (half an order of magnitude above the 10 MB the statement names) is not accepted (no CreateAuthRequest, no Success). Sizes below 32 MiB are executed and reported, not asserted (the statement fixes only the order of magnitude of the cap). Non-trivial: S >= 32 MiB with a compressed size below 1 MiB. Distinct by (endpoint, placement, size, wrapper validity)."
 
 type C14Case struct {
 	Endpoint  string `json:"endpoint"` // sso-query | sso-form | slo-form | slo-query
@@ -34,6 +34,7 @@ type C14Case struct {
 	Pad       string `json:"pad_byte"`
 	Valid     bool   `json:"valid_wrapper"`
 	Container string `json:"container,omitempty"` // "" raw DEFLATE (what the binding prescribes) | zlib (RFC 1950) | gzip
+	Best      bool   `json:"best_compression,omitempty"`
 }
 
 var (
@@ -43,7 +44,7 @@ var (
 
 // c14Payload returns the DEFLATE stream of a request whose padding inflates to sizeMiB, produced without materialising the inflated text.
 func c14Payload(c C14Case, spec world.Spec, now time.Time) []byte {
-	key := fmt.Sprintf("%s/%d/%s/%s/%v/%s", c.Endpoint[:3], c.SizeMiB, c.Placement, c.Pad, c.Valid, c.Container)
+	key := fmt.Sprintf("%s/%d/%s/%s/%v/%s/%v", c.Endpoint[:3], c.SizeMiB, c.Placement, c.Pad, c.Valid, c.Container, c.Best)
 	c14Mu.Lock()
 	defer c14Mu.Unlock()
 	if b, ok := c14Cache[key]; ok {
@@ -89,13 +90,17 @@ func c14Payload(c C14Case, spec world.Spec, now time.Time) []byte {
 	pre, post, _ := strings.Cut(x, marker)
 	var buf bytes.Buffer
 	var w io.WriteCloser
+	level := flate.BestSpeed
+	if c.Best {
+		level = flate.BestCompression
+	}
 	switch c.Container {
 	case "zlib":
-		w, _ = zlib.NewWriterLevel(&buf, zlib.BestSpeed)
+		w, _ = zlib.NewWriterLevel(&buf, level)
 	case "gzip":
-		w, _ = gzip.NewWriterLevel(&buf, gzip.BestSpeed)
+		w, _ = gzip.NewWriterLevel(&buf, level)
 	default:
-		w, _ = flate.NewWriter(&buf, flate.BestSpeed)
+		w, _ = flate.NewWriter(&buf, level)
 	}
 	w.Write([]byte(pre))
 	chunk := bytes.Repeat([]byte(c.Pad), 1<<20)
@@ -110,7 +115,7 @@ func c14Payload(c C14Case, spec world.Spec, now time.Time) []byte {
 }
 
 func genC14Case(t *rapid.T) C14Case {
-	sizes := []int{1, 2, 8, 32, 64, 64, 96, 128, 128, 256, 256}
+	sizes := []int{1, 2, 8, 12, 20, 32, 32, 36, 40, 48, 64, 64, 96, 128, 128, 256, 256}
 	if ev.Tier() == "thorough" {
 		sizes = append(sizes, 384, 512, 768, 1024, 1024)
 	}
@@ -121,10 +126,15 @@ func genC14Case(t *rapid.T) C14Case {
 		Pad:       rapid.SampledFrom([]string{"A", " ", "A"}).Draw(t, "pad"),
 		Valid:     rapid.IntRange(0, 3).Draw(t, "valid") != 0,
 		Container: rapid.SampledFrom([]string{"", "", "", "zlib", "gzip"}).Draw(t, "container"),
+		Best:      rapid.Bool().Draw(t, "best"),
 	}
 }
 
 const c14AllocLimit = 160 << 20
+
+// c14AcceptLimitMiB: "of the order of the 10 MB cap" is read as within half an order of magnitude (x3.16): a message that
+// inflates to 32 MiB or more must not be accepted whatever cap an implementation chooses.
+const c14AcceptLimitMiB = 32
 
 func c14Run(c C14Case) (vs []*ev.Violation, alloc uint64, compressed int, accepted bool) {
 	spec := stdSpec()
@@ -165,7 +175,7 @@ func c14Run(c C14Case) (vs []*ev.Violation, alloc uint64, compressed int, accept
 	if alloc > c14AllocLimit {
 		vs = append(vs, ev.V("C14/allocation-proportional-to-inflated-size", "%s, %d MiB inflated (%d KiB compressed, padding in %s): %d MiB allocated while serving the request (limit %d MiB)", c.Endpoint, c.SizeMiB, compressed>>10, c.Placement, alloc>>20, c14AllocLimit>>20))
 	}
-	if c.SizeMiB >= 64 && accepted {
+	if c.SizeMiB >= c14AcceptLimitMiB && accepted {
 		vs = append(vs, ev.V("C14/oversized-request-accepted", "%s, %d MiB inflated (%d KiB compressed, padding in %s) was accepted", c.Endpoint, c.SizeMiB, compressed>>10, c.Placement))
 	}
 	return
@@ -181,14 +191,41 @@ func TestC14(t *testing.T) {
 			maxAlloc = alloc
 			col.SetExtra("max_alloc_mib_during_one_request", int(maxAlloc>>20))
 		}
-		nt := c.SizeMiB >= 64 && compressed < 1<<20
+		nt := c.SizeMiB >= c14AcceptLimitMiB && compressed < 1<<20
 		bucket := "<=64MiB"
 		if alloc > 64<<20 {
 			bucket = ">64MiB"
 		}
-		col.Case(nt, ev.Fingerprint(c.Endpoint, c.Placement, c.SizeMiB, c.Valid, c.Container), []string{"endpoint/" + c.Endpoint, "placement/" + c.Placement, fmt.Sprintf("size/%04dMiB", c.SizeMiB), fmt.Sprintf("accepted=%v", accepted), "alloc" + bucket}, func() any {
+		col.Case(nt, ev.Fingerprint(c.Endpoint, c.Placement, c.SizeMiB, c.Valid, c.Container, c.Best), []string{"endpoint/" + c.Endpoint, "placement/" + c.Placement, fmt.Sprintf("size/%04dMiB", c.SizeMiB), fmt.Sprintf("accepted=%v", accepted), "alloc" + bucket}, func() any {
 			return map[string]any{"case": c, "compressed_bytes": compressed, "allocated_mib": alloc >> 20, "accepted": accepted}
 		})
 		return vs
+	})
+}
+
+// TestC14Ladder walks the sizes around the acceptance limit deterministically (every endpoint x size x compression level,
+// raw DEFLATE, padding in a comment): the region between an implementation's cap and the limit is where a cap that depends
+// on the compressed length or on the compression ratio shows.
+func TestC14Ladder(t *testing.T) {
+	col := ev.For("C14", "exploration", c14Rule)
+	runPlain(t, col, "TestC14", func(fail func(*ev.Violation, any)) {
+		for _, ep := range []string{"sso-query", "sso-form", "slo-form", "slo-query"} {
+			for _, size := range []int{4, 9, 10, 11, 16, 24, 32, 33, 36, 40, 41, 44, 64} {
+				for _, best := range []bool{false, true} {
+					c := C14Case{Endpoint: ep, SizeMiB: size, Placement: "comment", Pad: "A", Valid: true, Best: best}
+					vs, alloc, compressed, accepted := c14Run(c)
+					bucket := "<=64MiB"
+					if alloc > 64<<20 {
+						bucket = ">64MiB"
+					}
+					col.Case(size >= c14AcceptLimitMiB && compressed < 1<<20, ev.Fingerprint(c.Endpoint, c.Placement, c.SizeMiB, c.Valid, c.Container, c.Best), []string{"ladder/endpoint/" + ep, fmt.Sprintf("ladder/size/%04dMiB", size), fmt.Sprintf("ladder/accepted=%v", accepted), "ladder/alloc" + bucket}, func() any {
+						return map[string]any{"case": c, "compressed_bytes": compressed, "allocated_mib": alloc >> 20, "accepted": accepted}
+					})
+					for _, v := range vs {
+						fail(v, c)
+					}
+				}
+			}
+		}
 	})
 }
